@@ -138,6 +138,7 @@ func TestFileReadAt(tb testing.TB, o FSOptions) {
 			expectErr:   io.EOF,
 		},
 	} {
+		tc := tc // enable parallel sub-tests
 		o.tbRun(tb, tc.description, func(tb testing.TB) {
 			tbParallel(tb)
 			file, err := fs.Open("foo")
